@@ -48,7 +48,16 @@ P = URIRef("urn:x:p")
 S_ = URIRef("urn:x:s")
 
 
+class NoText(Exception):
+    pass
+
+
 def via(how, a):
+    if how in ("from_n3", "turtle", "ntriples", "sparql_values"):
+        try:
+            a.n3()
+        except Exception:     # noqa: BLE001   n3() declines to write the term: there is no text that could read back as another term
+            raise NoText()
     if how.startswith("pickle"):
         return pickle.loads(pickle.dumps(a, protocol=int(how[6:])))
     if how == "copy":
@@ -146,6 +155,8 @@ def replay(cfg, events):
                 e["ab"], e["bc"], e["ac"] = bool(a == b), bool(b == c), bool(a == c)
             else:
                 raise ValueError(op)
+        except NoText:
+            e["notext"] = True
         except Exception as ex:  # noqa: BLE001
             e["raise"] = type(ex).__name__ + ": " + str(ex)[:100]
         e.pop("first", None)
